@@ -224,6 +224,15 @@ fn laws(nodes: &[Node]) -> Value {
     json!({"pairs": pairs, "tri": tri})
 }
 
+/// The values the three replicas hold after a scenario (used by the C14 round-trip check).
+pub fn final_values(ops: &[Value]) -> Vec<(u64, ReplicatedValue)> {
+    let mut nodes: Vec<Node> = (1..=3).map(Node::new).collect();
+    for ev in ops {
+        let _ = catch(|| apply(&mut nodes, ev));
+    }
+    nodes.iter().filter_map(|n| n.val().map(|v| (n.st.replica_id.0, v.clone()))).collect()
+}
+
 fn run_scenario(run: usize, ops: &[Value], out: &mut Out) {
     let mut nodes: Vec<Node> = (1..=3).map(Node::new).collect();
     out.emit(&json!({"a": "reset", "run": run}));
@@ -244,7 +253,7 @@ fn run_scenario(run: usize, ops: &[Value], out: &mut Out) {
 }
 
 /// Random operation sequences that respect the guards of the spec's actions.
-fn random_ops(rng: &mut impl Rng, len: usize, kinds: &[&str]) -> Vec<Value> {
+pub fn random_ops(rng: &mut impl Rng, len: usize, kinds: &[&str]) -> Vec<Value> {
     // mirror of just enough state to respect guards: kind + hash fields / orset elems per replica
     #[derive(Clone, Default)]
     struct M {
